@@ -332,7 +332,7 @@ def chain_rules(rep, prog):
         return
     outer = [kv for kv in loops if kv[1]["iter"] == ("ext", "range", (p,), ())]
     if len(outer) != 1:
-        rep.bad("CHAIN.roots", fwhere(f), "no loop over range(p): not one graph per root position")
+        rep.bad_form("CHAIN.roots", fwhere(f), "no loop over range(p): not one graph per root position")
         return
     lo, lout = outer[0]
     i = ("elem", lout["iter"])
